@@ -116,6 +116,24 @@ def pyeq : V → V → Bool
   | .int i, .bool a => (if a then 1 else 0) == i
   | a, b => decide (a = b)
 
+/-- the integer a value stands for in arithmetic and ordering: an `int`, or a `bool` (`True` = 1) -/
+def asInt? : V → Option Int
+  | .int i => some i
+  | .bool b => some (if b then 1 else 0)
+  | _ => Option.none
+
+/-- `a - b` on ints (bools count as ints); everything else (floats, `None`: TypeError) is outside the model -/
+def sub (a b : V) : Option V := (asInt? a).bind fun x => (asInt? b).map fun y => V.int (x - y)
+
+/-- `a + b` on ints (string concatenation etc. is outside the model) -/
+def add (a b : V) : Option V := (asInt? a).bind fun x => (asInt? b).map fun y => V.int (x + y)
+
+/-- `a < b`, `a <= b`, `a > b`, `a >= b` on ints; `None` (TypeError), floats and strings are outside the model -/
+def lt (a b : V) : Option Bool := (asInt? a).bind fun x => (asInt? b).map fun y => decide (x < y)
+def le (a b : V) : Option Bool := (asInt? a).bind fun x => (asInt? b).map fun y => decide (x ≤ y)
+def gt (a b : V) : Option Bool := (asInt? a).bind fun x => (asInt? b).map fun y => decide (y < x)
+def ge (a b : V) : Option Bool := (asInt? a).bind fun x => (asInt? b).map fun y => decide (y ≤ x)
+
 /-- the parts of a list of code points between the occurrences of `sep` (never an empty list) -/
 def splitChars (sep : Char) : List Char → List (List Char)
   | [] => [[]]
